@@ -7,6 +7,7 @@ After every transition: (1) the operative text, parsed on a reset gin, must cont
 parameters predicted by OperativeModel; (2) reset -> parse the text -> repeat the same calls must give identical
 probe records and identical text (when every supplied value was representable).
 """
+import enum
 import re
 
 from vf import bfs
@@ -35,6 +36,15 @@ class NonRep:
 
 
 NONREP = NonRep()
+
+
+class IE(enum.IntEnum):
+  ONE = 1
+  TWO = 2
+
+
+class SE(str, enum.Enum):
+  S = 's'
 
 
 def setup():
@@ -78,6 +88,20 @@ def setup():
   TH = th
 
   @gin.configurable(module='c07')
+  def mut(items=None, table=None):          # a callee that edits the containers it is given
+    REC.append(('mut', repr(items), repr(table)))
+    if items is not None:
+      items.append('EDITED')
+    if table is not None:
+      table['edited'] = True
+
+  @gin.configurable(module='c07')
+  def en(mode=IE.ONE, kind=SE.S, steps=0, label='x'):     # enum defaults that EQUAL the plain values bound below
+    REC.append(('en', repr(mode), repr(kind), steps, label))
+  global MUT, EN
+  MUT, EN = mut, en
+
+  @gin.configurable(module='c07')
   def never(z=0):
     REC.append(('never', z))
 
@@ -118,6 +142,8 @@ SIG = {   # selector -> (positional names, representable+allowed defaults)
     'c07.z0': (['a', 'b', 'c', 'd', 'e', 'f_'], {'a': 0, 'b': '', 'c': False, 'd': None, 'e': (), 'f_': 0.0}),
     'c07.zf': (['a', 'b', 'c', 'd', 'e', 'g_'], {'d': 1.5, 'g_': 1e308}),
     'c07.kwd': (['a', 'b'], {'a': 'ka', 'b': 'kb', 'k': 'kk', 'j': None}),
+    'c07.mut': (['items', 'table'], {'items': None, 'table': None}),
+    'c07.en': (['mode', 'kind', 'steps', 'label'], {'steps': 0, 'label': 'x'}),
     'gin.macro': (['value'], {}),
     'gin.constant': ([], {}),
 }
@@ -159,12 +185,15 @@ CONFIGS = {
     },
     'cfg_empty': {'text': '', 'model': {}},
     'cfg_nonrep': {
-        'text': "c07.f.a = 1\nc07.consumer.q = [@c07.g(), @c07.g]\ns/c07.g.t = 'st'\n",
+        'text': ("c07.f.a = 1\nc07.consumer.q = [@c07.g(), @c07.g]\ns/c07.g.t = 'st'\nc07.mut.items = [64, 64]\n"
+                 "c07.mut.table = {'k': [1]}\nc07.en.steps = 1\nc07.en.label = 's'\n"),
         'bind': [(('', 'c07.f', 'c'), NONREP)],
         'model': {
             ('', 'c07.f'): {'a': 1, 'c': NONREP},
             ('', 'c07.consumer'): {'q': [Ref('', 'c07.g'), Ref('', 'c07.g', False)]},
             ('s', 'c07.g'): {'t': 'st'},
+            ('', 'c07.mut'): {'items': [64, 64], 'table': {'k': [1]}},
+            ('', 'c07.en'): {'steps': 1, 'label': 's'},
         },
     },
 }
@@ -196,18 +225,22 @@ EVENTS = {
     'z0()': ('c07.z0', [], [], {}),
     'z0(0, b=None)': ('c07.z0', [], [0], {'b': None}),
     's:z0(c=True)': ('c07.z0', ['s'], [], {'c': True}),
+    'mut()': ('c07.mut', [], [], {}),
+    'en()': ('c07.en', [], [], {}),
     'kwd()': ('c07.kwd', [], [], {}),
     "kwd('x', k=1)": ('c07.kwd', [], ['x'], {'k': 1}),
 }
 EVENTS_Q = ['f()', "f('pos')", 'f(b=2)', 's:f()', 's/t:f()', 'consumer()', "consumer('x')", 'al()', 'dl()',
             'K().m()', 'u/K().m()', "K().m(v='cv')", "s:f(a='ka')", 'al(y=5)', 'g()', 'bind f.b=1', 'bind f.b=True',
             'bind g.t=%mm', 'bind g.t=%mm2', 'bind consumer.p=@s/g()', 'bind consumer.p=@u/g()', 'z0()', 'z0(0, b=None)',
-            'f(a=REQ)', 'f(REQ, b=REQ)', 'zf()', 'kwd()', "kwd('x', k=1)", 'bind g.t=%mnone']
+            'f(a=REQ)', 'f(REQ, b=REQ)', 'zf()', 'kwd()', "kwd('x', k=1)", 'bind g.t=%mnone', 'mut()', 'en()']
 
 
 def bound(tier):
-  return '%d configurations x call sequences depth<=%d over %d events' % (
-      len(CONFIGS), 4 if tier == 'quick' else 5, len(EVENTS_Q) if tier == 'quick' else len(EVENTS))
+  if tier == 'quick':
+    return ('%d configurations x call sequences over %d events: depth<=4 on cfg_refs, depth<=3 on the two others' %
+            (len(CONFIGS), len(EVENTS_Q)))
+  return '%d configurations x call sequences depth<=5 over %d events' % (len(CONFIGS), len(EVENTS) + len(REBIND))
 
 
 def do_event(ev):
@@ -226,7 +259,7 @@ def do_event(ev):
         inst = gin.get_configurable(KCLS)()
       inst.m(*args, **kwargs)
     else:
-      fn = {'c07.f': F, 'c07.g': G, 'c07.consumer': CONSUMER, 'c07.al': AL, 'c07.dl': DL, 'c07.z0': Z0, 'c07.zf': ZF, 'c07.kwd': KWD}[target]
+      fn = {'c07.f': F, 'c07.g': G, 'c07.consumer': CONSUMER, 'c07.al': AL, 'c07.dl': DL, 'c07.z0': Z0, 'c07.zf': ZF, 'c07.kwd': KWD, 'c07.mut': MUT, 'c07.en': EN}[target]
       req = lambda v: gin.REQUIRED if v == 'REQ' else v  # noqa: E731
       with gin.config_scope(list(scope) if scope else None):
         fn(*[req(a) for a in args], **{k: req(v) for k, v in kwargs.items()})
@@ -649,7 +682,10 @@ def run(ctx):
     World.CNAME = cname
     World.EVS = evs
     r = core.Result()
-    bfs.run_bfs(ctx, mod, depth, r, max_states=300000)
+    # quick: full depth on the configuration with references / macros / scopes, one less on the two others
+    d = depth if (not ctx.quick or cname == 'cfg_refs') else depth - 1
+    res.extra.setdefault('depth_per_config', {})[cname] = d
+    bfs.run_bfs(ctx, mod, d, r, max_states=300000)
     res.extra.setdefault('per_config', {})[cname] = {'states': r.states, 'transitions': r.transitions}
     res.merge(r)
   ctx.close()
